@@ -405,6 +405,34 @@ def discr_switches(body):
     return out
 
 
+def enum_arms(body, sw, nvariants=2):
+    """{variant index: target} of a discriminant switch, with `otherwise` standing for the one variant not listed (`if let` / `_ =>`
+    and a two-armed `match` produce different terminators for the same dispatch).  An unreachable `otherwise` adds nothing."""
+    tg = dict(sw[2])
+    oth = sw[3]
+    missing = [v for v in range(nvariants) if v not in tg]
+    if len(missing) == 1 and oth is not None and body.blocks[oth]["t"]["k"] != "unreachable":
+        tg[missing[0]] = oth
+    return tg
+
+
+def zero_tests(body):
+    """[(bb, tested origin, zero_target, nonzero_target)] for every live switch that separates `x == 0` from `x != 0`:
+    `if x == 0`, `if x != 0`, `match x { 0 => .., _ => .. }` all normalise to the same tuple."""
+    out = []
+    for (i, o, tg, oth) in discr_switches(body):
+        s = deepstrip(o)
+        if s[0] == "bin" and s[1] in ("Eq", "Ne") and len(s) > 3 and (s[3][0] == "const" and s[3][1] == 0 or s[2][0] == "const" and s[2][1] == 0):
+            x = s[2] if s[3][0] == "const" else s[3]
+            f_bb, t_bb = tg.get(0), (tg.get(1) if 1 in tg else oth)
+            if f_bb is None or t_bb is None:
+                continue
+            out.append((i, x, t_bb, f_bb) if s[1] == "Eq" else (i, x, f_bb, t_bb))
+        elif s[0] not in ("bin", "discr") and set(tg) == {0} and oth is not None and body.blocks[oth]["t"]["k"] != "unreachable":
+            out.append((i, s, tg[0], oth))
+    return out
+
+
 def dominated(body, b):
     """Set of live blocks dominated by b."""
     return {x for x in body.live_blocks() if body.dominates(b, x)}
@@ -438,6 +466,31 @@ def deepstrip(o):
         else:
             out.append(x)
     return tuple(out)
+
+
+WRAPPERS = ("std::ops::Deref::deref", "std::ops::DerefMut::deref_mut")
+
+
+def peel(o, through_manuallydrop=True):
+    """The value an origin designates once borrows, pointer casts, `Deref` of a wrapper and `ManuallyDrop::new(..)` are looked through:
+    `&*ManuallyDrop::new(x)`, `&mut *deref_mut(&mut md)`, `x as *const _` all peel to x."""
+    while True:
+        o = strip(o)
+        if o[0] == "cast":
+            o = o[2]
+            continue
+        if o[0] == "call" and (o[1] in WRAPPERS or (through_manuallydrop and o[1].endswith("ManuallyDrop::<T>::new"))) and o[2]:
+            o = o[2][0]
+            continue
+        return o
+
+
+def peel_place(o):
+    """`peel` applied at every level of a field/downcast projection: `(*deref(&ManuallyDrop::new(x))).f` designates `x.f`."""
+    o = peel(o)
+    if o[0] in ("field", "downcast"):
+        return (o[0], peel_place(o[1])) + tuple(o[2:])
+    return o
 
 
 def erase_callsites(o):
